@@ -240,6 +240,14 @@ func BuildSeeds(repo string, namespace string) *Seeds {
 		}
 		ShortKeySelfIssued, _ = art.Bytes(nil)
 	}
+	{
+		// derived: the self-signed RSA root with an all-zero signature (the integer 0 reaches the
+		// RSA public operation whatever the key looks like)
+		root := must(d.Parse(certs["rsa-root"]))
+		sig := root.Children[2]
+		sig.Content = make([]byte, len(sig.Content))
+		s.add("cert", "rsa-root-zerosig", "file", d.Serialise(root))
+	}
 	for _, name := range []string{"ed-root", "ed-leaf", "p256-leaf", "rsa-leaf", "kitchen", "kitchen-uid"} {
 		var der []byte
 		if name == "kitchen-uid" {
